@@ -367,3 +367,67 @@ def _func_at(m, line: int) -> str:
 
 def _fold(L: Lang) -> Lang:
     return L
+
+
+def _delims(pattern: str) -> Tuple[int, int]:
+    """Number of fixed delimiter characters (quotes) a terminal pattern starts / ends with."""
+    import re._constants as sc
+    import re._parser as sp
+
+    items = list(sp.parse(pattern))
+    lead = trail = 0
+    for op, av in items:
+        if op is sc.LITERAL and av == ord('"'):
+            lead += 1
+        else:
+            break
+    if lead < len(items):
+        for op, av in reversed(items):
+            if op is sc.LITERAL and av == ord('"'):
+                trail += 1
+            else:
+                break
+    return lead, trail
+
+
+@rule("G12", "QUOTE-STRIP: the text of a quoted terminal loses exactly its delimiting quotes - no content character is cut off, no quote is kept", ["C13", "C03", "C08"], floor=3, default_props=["C03", "C13"])
+def g12(ctx: Ctx):
+    I = interp(ctx)
+    vals = rule_values(ctx)
+    from .textlang import _rel
+
+    seen: Set[str] = set()
+    for r, v in sorted(vals.items()):
+        for x, where in walk(v):
+            if not isinstance(x, Obj):
+                continue
+            for f, fv in x.fields.items():
+                for y in alts_of(fv):
+                    if not (isinstance(y, StrV) and hasattr(y, "slice_of")):
+                        continue
+                    base, lo, hi = y.slice_of
+                    node = getattr(base, "node", None) or getattr(y, "node", None)
+                    if node is None or I.peg.kind(node.expr) != "regex":
+                        continue
+                    lead, trail = _delims(node.expr.re.pattern)
+                    if lead == 0 and trail == 0:
+                        continue
+                    if getattr(base, "full", False):
+                        lo_k, hi_e = _rel(lo, "start"), _rel(hi, "end")
+                        hi_k = None if hi_e is None else -hi_e
+                    else:
+                        lo_k = (lo.value or 0) if isinstance(lo, Const) else None
+                        hi_k = (0 if hi.value is None else (-hi.value if hi.value < 0 else None)) if isinstance(hi, Const) else None
+                    meth = _func_at(pyfacts(ctx).modules[PARSER_REL], getattr(x, "line", 0) or 0).split(".")[-1]
+                    key = f"{meth}:{x.cls}.{f}"
+                    if key in seen:
+                        continue
+                    seen.add(key)
+                    ok = lo_k == lead and hi_k == trail
+                    ctx.ob(
+                        key,
+                        ok,
+                        "" if ok else f"`{meth}` stores the text of `{node.desc}` ({node.expr.re.pattern!r}) with {lo_k} leading and {hi_k} trailing character(s) cut off; the terminal has {lead} opening and {trail} closing quote(s): a content character of the user's string is lost, or a quote is kept and unbalances the emitted literal",
+                        file="coco/b09/parser.py",
+                        line=getattr(x, "line", 1) or 1,
+                    )
